@@ -4,6 +4,18 @@ import json
 E2="bounded exhaustive input enumeration against a reference model (small-scope model checking of the implementation)"
 E1="exhaustive schedule exploration of the implementation (stateless DFS with state caching under a controlled cooperative scheduler)"
 CHECKS = {
+ "C10": dict(engine="E2/E3", category="model_checking", technique=E2,
+   text="All value streams up to n=4/5 over {1,2,3,-1,0.5,2.5,empty,abc,absent} and all group streams up to n=3 over group-text alphabets (incl. 1 vs 1.0, empty, absent, comma-containing and concatenation-ambiguous pairs) through every stats1 accumulator of the accumulator table (walked via an overlay export), percentiles p0..p100 x n=1..8/10 x both interpolation modes exhaustively, merge-fields, step (all steppers incl. shift_lead/ewma/sliding windows), count, count-distinct, count-similar, uniq, top, fraction, histogram, most/least-frequent, fill-down and the DSL stats functions; oracle = first-principles recomputation in math/big (validated against the documentation's worked examples at start-up) plus structural clauses (first-appearance group order by exact text, absent fields left out of that accumulation only, ints stay ints, counts add up).",
+   note="Floating moments compared at relative tolerance 1e-9; cells where the docs allow two readings (empty values in count/mode, percentile at an exact boundary) accept both. Four genuine defects pinned by the repository's regression expectations are known findings."),
+ "C12": dict(engine="E3+E2", category="model_checking", technique="explicit-state breadth-first search over the real Mlrmap transition functions with canonical-state dedupe + bounded exhaustive verb enumeration",
+   text="(A) BFS over sequences of ~230 accessor calls on the real mlrval.Mlrmap in four construction modes in lock-step (lazy, hashed, unhashed, arena-built), from the empty map to its fixpoint and from 11/12/13-field pre-fills across the lazy-index threshold; after every transition the map equals a reference ordered list and satisfies the structural invariants (FieldCount, Prev/Next symmetry, Head/Tail, index == first entry per key), and all modes agree. (B) All 21 restructuring verbs through the real CLI on all records over nasty key alphabets x field lists incl. repeats and regex forms x flag combinations: model-free bystander law, per-verb reference models from the usage texts, and the property's inverse-pair / complement / keystroke-saver laws evaluated on the real code.",
+   note="State counts are per-shard distinct states summed (over-count) except the exact empty-start closure (1266 states). Key-collision cases in rename -r/case/nest/reshape get only the bystander law. Two doc/usage inconsistencies are known findings."),
+ "C16": dict(engine="E2", category="model_checking", technique=E2,
+   text="Every day of years 1..9999 (thorough; quick: 1850..2150 plus every year's boundary days) at three times of day, every second in windows around 14 boundary instants, fractional seconds x 0-9 decimals, all %-code token sequences up to length 2/3 over 61 tokens, every integer in [-1e5,1e5] ([-2e5,2e5]) for the dhms family, all pairs of 604 dates x 6 units for datediff, and for 10 IANA zones every transition 1900-2037 with every second around it in both directions; oracles: an integer civil-from-days reference sharing nothing with Go's time package, Python zoneinfo on the same tzdata as a batch subprocess, inverse-pair laws and verb==function laws on the real code.",
+   note="Overlaps accept either valid instant; gaps only 'number or error'. Zones outside the 10 and leap seconds not covered."),
+ "C20": dict(engine="E3", category="model_checking", technique="exhaustive enumeration of target-switch histories (up to renaming) on the real redirect/split code in builds with the open-handle LRU capacity reduced to 2 and 3, plus structured families at the real capacity",
+   text="ALL histories of (target, record) writes up to length 6/8 over 4 targets (capacity 2) and length 5/7 over 5 targets (capacity 3), canonical up to target renaming, through every routing statement/verb (tee >, emit >, emitf >, print >, printn >, dump >, tee >>, split -g, split -a) x output format (csv tsv json jsonl dkvp pprint xtab markdown csvlite); every target file is read back by an independent parser as ONE document holding exactly the routed records in order, union == routed input, no stray files; append mode preserves pre-existing content. Families at capacity 256 (cyclic 258x2, revisit after a 256-gap, sawtooth, two-pass 300) bind the reduced-capacity builds to the real constant.",
+   note="The reduced builds differ from the real one only in one integer literal (tools/vinstr -const). Pipe targets are external processes and not enumerated. D9 (document restarted after eviction+reopen) is a known finding."),
  "C06": dict(engine="E2", category="model_checking", technique=E2,
    text="All strings up to length 5 (quick) / 6 (thorough) over the 23-symbol numeric alphabet plus a generated boundary list (2^k+-1 in four radixes, int64/uint64/double limits, every spelling class) in each inference mode {default,-S,-A,-O} and position {data field, JSON number, JSON string, DSL literal, five readers}, classified by the real inferrer and compared with a hand-written reference recogniser (exact values via big.Rat); agreement clause: typeof / is_* / asserting_* / arithmetic / sort -n judged against the single classification.",
    note="Strings outside the alphabet/length bound are not explored; cells the docs leave open (double-range overflow, non-two's-complement hex overflow, -O with 8/9) are counted as unconstrained. Trusted: the reference recogniser in checks/c06/ref.go (cross-checked against strconv at run time)."),
